@@ -114,6 +114,17 @@ def template(tid, tmp=None):
         names = {'I1': ['O3', 'NO2'], 'I3': ['CO'], 'I4': ['O3', 'NO2',
                                                            'ASO4J']}[tid]
         arrs = {n: a + 100 * (i + 1) for i, n in enumerate(names)}
+        if tid == 'I4':
+            # descriptive attributes (a long_name that is not the padded name)
+            f = ioapi_base.from_arrays(
+                fileattrs=dict(SDATE=sd, STIME=st, TSTEP=step, XORIG=-108000.,
+                               YORIG=-60000., XCELL=12000., YCELL=4000.,
+                               VGLVLS=vg, VGTOP=5000., GDNAM='VERIF',
+                               FTYPE=1), **arrs)
+            f.variables['O3'].long_name = 'Ozone'.ljust(16)
+            f.variables['O3'].var_desc = 'ozone mixing ratio'.ljust(80)
+            f.variables['NO2'].units = 'ppbV'.ljust(16)
+            return f
         return ioapi_base.from_arrays(
             fileattrs=dict(SDATE=sd, STIME=st, TSTEP=step, XORIG=-108000.,
                            YORIG=-60000., XCELL=12000., YCELL=4000.,
